@@ -421,6 +421,13 @@ def checkBuild (params lines : List String) : CaseResult := Id.run do
       ops := ops ++ [Op.out]
       info := { acts := info.acts ++ [info.cur], cur := [] }
     | ["s", "layout"] => ops := ops ++ [Op.layout cfg]
+    | ["s", "layoutwith", sx, sy, cg, rg, pg] =>
+      -- an earlier AutoLayout with another configuration (same scale)
+      match parseInt? sx, parseInt? sy, parseInt? cg, parseInt? rg, parseInt? pg with
+      | some sx, some sy, some cg, some rg, some pg =>
+        if [sx, sy, cg, rg, pg].any (· % 2 != 0) then return { bad := ["configuration off the exact grid"] }
+        ops := ops ++ [Op.layout { sx, sy, cg, rg, pg, scale := cfg.scale }]
+      | _, _, _, _, _ => return { bad := ["c19 layoutwith"] }
     | ["s", "dbout"] => ops := ops ++ [Op.dbout]
     | "d" :: ws =>
       for w in ws do
